@@ -75,13 +75,14 @@ class PepRecorder:
     """Stub of peps_from_scores (PEP estimators are not applicable to this technique, C06):
     records its arguments and returns one fresh symbol per row."""
 
-    def __init__(self):
+    def __init__(self, exit_without_decoys=True):
         self.calls = []
+        self.exit_without_decoys = exit_without_decoys
 
     def __call__(self, scores, targets, algorithm="qvality"):
         import z3
         from symx import symnp, core
-        if algorithm == "qvality" and len(targets.items) and bool(core.s_and(*list(targets.items))):
+        if self.exit_without_decoys and algorithm == "qvality" and len(targets.items) and bool(core.s_and(*list(targets.items))):
             # contract of the kernel (probed: triqler via peps_from_scores): without a single decoy it leaves through
             # SystemExit with this message, which _assign_confidence catches
             raise SystemExit("ERROR: no decoy hits available for PEP calculation")
